@@ -26,7 +26,7 @@ SHAPES = ["neg_if_lone_jump", "case_only_break", "lone_jump_block", "default_fir
 
 
 def strategy(tier):
-    return gen_prog.programs(max_stmts=40 if tier == "quick" else 60)
+    return gen_prog.programs(max_stmts=40 if tier == "quick" else 60, may_be_rejected=True)
 
 
 def shape_of(classes: set[str]) -> str:
@@ -48,6 +48,15 @@ def check_program(prog, st, tag=""):
         npaths = model.count_paths(gs, 50)
     except model.OpFreeCycle:
         st.count("discard_op_free_cycle")
+        return fails, None, None
+    except model.SemanticsError as e:
+        # the specification gives this program no meaning (e.g. a switch that ends in an empty case): the compiler must
+        # not turn it into bytecode
+        comp, exc = call_guard(lambda: compile_text(render.render(prog).text))
+        if exc is None:
+            fails.append(Failure("accepted_meaningless_program", f"{e}: accepted and compiled to {sum(len(r) for r in comp.routine_ops)} ops\n{render.render(prog).text}"))
+        else:
+            st.count("meaningless_and_rejected")
         return fails, None, None
     # every other program is written with drawn spellings (integer bases, quote styles, the deprecated header forms ...):
     # the spelling tape is a function of the program, so no extra draws and the same shrinking
